@@ -51,6 +51,19 @@ WrTab(e) ==
                              got |-> [i \in DOMAIN FirstFew(bs) |-> e.effects[bs[i] + 1]],
                              devices |-> [i \in DOMAIN FirstFew(bs) |-> WriteDevices(cfg, bs[i])]])
 
+\* a history of writes to arbitrary ports: after each, the border and the speaker/MIC level heard are those of the
+\* last value that reached the ULA (bits 0-2 border, bit 3 MIC, bit 4 speaker); other ports leave them alone
+RECURSIVE UlaWalk(_, _, _, _)
+UlaWalk(c, ops, i, st) ==
+    IF i > Len(ops) THEN <<>>
+    ELSE LET o == ops[i]
+             st1 == IF "ula" \in WriteDevices(c, o[1]) THEN [border |-> o[2] % 8, lvl |-> (o[2] \div 8) % 4] ELSE st
+         IN IF o[3] = st1.border /\ o[4] = st1.lvl THEN UlaWalk(c, ops, i + 1, st1)
+            ELSE <<[i |-> i, port |-> o[1], val |-> o[2], border |-> o[3], level |-> o[4], want |-> st1]>>
+UlaWr(e) ==
+    \E bs \in {UlaWalk([m |-> e.m, kempston |-> FALSE, mouse |-> FALSE, ext |-> {}], e.ops, 1, [border |-> 0, lvl |-> 0])} :
+       IF bs = <<>> THEN bad' = bad ELSE Report("ulawr", bs[1])
+
 Float(e) ==
     LET t1 == IF e.t1 < e.t0 THEN e.t1 + Frame(cfg.m) ELSE e.t1
         allowed == FloatAllowed(cfg.m, e.t0, t1, scr)
@@ -64,6 +77,7 @@ Step(e) ==
             /\ UNCHANGED <<scr, bad>>
       [] e.ev = "rdtab" -> RdTab(e) /\ UNCHANGED <<cfg, dev, scr>>
       [] e.ev = "wrtab" -> WrTab(e) /\ UNCHANGED <<cfg, dev, scr>>
+      [] e.ev = "ulawr" -> UlaWr(e) /\ UNCHANGED <<cfg, dev, scr>>
       [] e.ev = "fcfg" -> cfg' = [NoCfg EXCEPT !.m = e.m] /\ scr' = e.screen /\ UNCHANGED <<dev, bad>>
       [] e.ev = "float" -> Float(e) /\ UNCHANGED <<cfg, dev, scr>>
 
